@@ -55,6 +55,14 @@ def run(ctx, proof):
         nexpl = 2 ** n - n - 2
         k = rng.randint(0, min(nexpl - 1, 6))
         states.append((n, rng.sample(range(nexpl), k)))
+    # states in which the highest-numbered (and the lowest-numbered) explorable coalitions are already revealed, so that the
+    # first / last valid action is not one of extreme size
+    for n in (4, 5):
+        nexpl = 2 ** n - n - 2
+        for m in range(1, 5 if ctx.quick else 8):
+            states.append((n, list(range(nexpl - m, nexpl))))
+            states.append((n, list(range(nexpl - m, nexpl)) + rng.sample(range(nexpl - m), rng.randint(0, 2))))
+            states.append((n, list(range(0, m))))
     # one solver object per registered name for the whole run, as evaluate() uses them (state kept on the solver
     # object across episodes and hidden games must not influence a decision)
     persistent = {name: SOLVERS[name](None) for name in sorted(names & MODELLED)}
@@ -178,11 +186,17 @@ def run(ctx, proof):
     from incomplete_cooperative.run.greedy import get_greedy_rewards
     from incomplete_cooperative.game import IncompleteCooperativeGame
     eg_lines, eg_meta = [], []
-    for _ in range(4 if ctx.quick else 24):
-        n = 3 if rng.random() < 0.4 else 4
+    from fractions import Fraction
+    for eg_i in range(4 if ctx.quick else 24):
+        # the statement is scale free: the same kind of integer games is also used multiplied by a power of two (exact in
+        # binary floating point) far below / above 1, and every comparison below is relative to the games' magnitude
+        vscale = [Fraction(1), Fraction(1, 2 ** 30), Fraction(2 ** 12), Fraction(1, 2 ** 24)][eg_i % 4]
+        n = 4 if eg_i % 4 in (1, 3) else (3 if rng.random() < 0.4 else 4)
         gapn = rng.choice(gaps + ["l1_norm", "linf_norm"])
         comp = rng.choice(["superadditive", "superadditive_cached"])
-        sample_games = [games.sa_closure_game(rng, n, "int", neg_singletons=False) for _ in range(rng.choice([1, 2, 3]))]
+        sample_games = [[vscale * x for x in games.sa_closure_game(rng, n, "int", neg_singletons=False)] for _ in range(rng.choice([1, 2, 3]))]
+        mag = max(abs(float(x)) for v in sample_games for x in v) * 2 ** n or 1.0
+        ctx.count("expected_greedy_value_scale", str(vscale))
         max_steps = rng.randint(1, 3)
         results = []
         for procs in ([1, 2] if ctx.quick else [1, 2, 4]):
@@ -204,12 +218,31 @@ def run(ctx, proof):
             eg_lines.append("egsearch %s %s %d %d %s %d %s %d %d %s" % (
                 bl.model_name(comp), gapn, n, len(sample_games), " ".join(qtok(x) for v in sample_games for x in v),
                 n + 2, " ".join(map(str, games.minimal_ids(n))), max_steps, len(possible), " ".join(map(str, possible))))
-            eg_meta.append((n, comp, gapn, sample_games, max_steps, curve, chosen))
+            eg_meta.append((n, comp, gapn, sample_games, max_steps, curve, chosen, mag))
         means = curve.mean(axis=1)
         if len(set(chosen)) != len(chosen):
             fails.append(("repeats a coalition", chosen))
-        if any(means[i + 1] > means[i] + 1e-9 for i in range(len(means) - 1)):
+        if any(means[i + 1] > means[i] + 1e-9 * mag for i in range(len(means) - 1)):
             fails.append(("curve increases", list(means)))
+        # the choice rule, step by step: the coalition appended at step i minimises the mean gap among all extensions of the prefix
+        def mean_gap(ids):
+            tot = 0.0
+            for v in sample_games:
+                g = IncompleteCooperativeGame(n, bl.computer_fn(comp))
+                ks = sorted(set(games.minimal_ids(n)) | set(ids))
+                from incomplete_cooperative.coalitions import Coalition as _C
+                g.set_known_values([float(v[i]) for i in ks], [_C(i) for i in ks])
+                g.compute_bounds()
+                tot += float(GAP_FUNCTIONS[gapn](g))
+            return tot / len(sample_games)
+        for i in range(len(chosen)):
+            prefix = list(chosen[:i])
+            cand = {c: mean_gap(prefix + [c]) for c in games.optional_ids(n) if c not in prefix}
+            mn = min(cand.values())
+            if chosen[i] not in cand or cand[chosen[i]] > mn + 1e-9 * mag:
+                fails.append(("step %d appends coalition %s with mean gap %r, but coalition %s gives %r" % (
+                    i + 1, chosen[i], cand.get(chosen[i]), min(cand, key=cand.get), mn),))
+                break
         # exhaustive optimum of the mean gap for each size
         opt = {}
         for v in sample_games:
@@ -226,9 +259,9 @@ def run(ctx, proof):
             mval = sum(vals) / len(vals)
             best[len(key)] = min(best.get(len(key), float("inf")), mval)
         for k in range(len(means)):
-            if k in best and means[k] < best[k] - 1e-9:
+            if k in best and means[k] < best[k] - 1e-9 * mag:
                 fails.append(("below the exhaustive optimum", k, means[k], best[k]))
-            if k <= 1 and k in best and abs(means[k] - best[k]) > 1e-9:
+            if k <= 1 and k in best and abs(means[k] - best[k]) > 1e-9 * mag:
                 fails.append(("differs from the optimum for <= 1 reveal", k, means[k], best[k]))
         if fails:
             ctx.violation(f"expected-greedy search violates its specification: {fails[:3]}",
@@ -236,7 +269,7 @@ def run(ctx, proof):
         ctx.count("expected_greedy", n)
 
     eg_bad = []
-    for (n, comp, gapn, sg, ms, curve, chosen), out in zip(eg_meta, run_driver_parallel(eg_lines)):
+    for (n, comp, gapn, sg, ms, curve, chosen, mag), out in zip(eg_meta, run_driver_parallel(eg_lines)):
         if out.startswith("err"):
             eg_bad.append("model search raised where the implementation returned")
             continue
@@ -244,7 +277,7 @@ def run(ctx, proof):
         mseq = [int(x) for x in parts[0].strip().strip("[]").split(",") if x]
         mrows = [[float(tokq(x)) for x in p.split()] for p in parts[1:]]
         if mseq != chosen or len(mrows) != curve.shape[0] or any(
-                not close(a, b, 1e-9, max(1.0, abs(b))) for ra, rb in zip(curve.tolist(), mrows) for a, b in zip(ra, rb)):
+                abs(float(a) - float(b)) > 1e-9 * mag for ra, rb in zip(curve.tolist(), mrows) for a, b in zip(ra, rb)):
             eg_bad.append(f"n={n} {comp} {gapn} max_steps={ms}: impl {chosen} {curve.tolist()} vs model {mseq} {mrows}")
     ctx.coverage["expected_greedy_runs_compared_with_model"] = len(eg_meta)
     if eg_bad and not any(v["found_input"] for v in ctx.violations):
